@@ -250,10 +250,10 @@ def finish(report: Report, seed: int) -> int:
     )
     for r in report.rules.values():
         print(f"    {r.id:<10} inst={r.instances:<5} (floor {r.floor}) oblig={r.obligations:<6} viol={len(r.violations)}  {r.text[:90]}")
+    if viol:
+        return 1   # a reported violation is the verdict even if it also starved another rule of its instances
     if errors:
         return 2
-    if viol:
-        return 1
     return 0
 
 
